@@ -106,7 +106,20 @@ def extract(ctx):
         raise RuntimeError(f"missing built-in graph: {set(label.values()) - seen}")
     out.append("end BeyondVerif.Generated")
     ch = core.write_if_changed(os.path.join(core.LEAN, "BeyondVerif", "Generated", "Graphs.lean"), "\n".join(out) + "\n")
-    return ["Generated/Graphs.lean"] if ch else []
+    changed = ["Generated/Graphs.lean"] if ch else []
+    # registration sites (which object each `<a>_to_<b>` method is stored on), from the AST of the anchored files
+    from harness import c20_sites
+    sites = c20_sites.extract_sites(core.REPO)
+    onames = ctx.graphs["orient"][0]
+    meth = []
+    for a, b in c20_sites.orientation_class_methods(core.REPO):
+        if a not in onames or b not in onames:
+            raise RuntimeError(f"Orientation.{a}_to_{b}: not a pair of built-in orientations")
+        meth.append((onames.index(a), onames.index(b)))
+    ctx.sites = sites
+    if core.write_if_changed(os.path.join(core.LEAN, "BeyondVerif", "Generated", "RegSites.lean"), c20_sites.to_lean(sites, meth)):
+        changed.append("Generated/RegSites.lean")
+    return changed
 
 
 # ---------------------------------------------------------------- real code
